@@ -257,7 +257,14 @@ def _parse(buf):
         return ('invalid', type(e).__name__)
     if o is None:
         return ('ignored',)
-    return ('ok', describe(o))
+    try:
+        d = describe(o)
+        for k, v in d.items():
+            if v is None and k != 'resume':
+                raise AttributeError('field %s was never decoded' % k)
+        return ('ok', d)
+    except AttributeError as e:   # the parser handed out a frame object whose fields were never set
+        return ('broken', type(o).__name__, str(e))
 
 
 class _Writer:
